@@ -72,6 +72,28 @@ theorem array_wrong_width_refused (m : GModel L) (rows : List (List α))
   rw [transformToNormal_arr2, if_neg]
   simpa using h
 
+/-- **A plain array is read in TRAINING-TABLE column order.**  `fit` stores as `self.columns` exactly the
+labels of the training table in table order (`Gen.GaussTransform.fitColumns`, one pass over `X.items()`,
+whatever the `distribution` configuration returns per column), with one univariate per column; hence for a
+model produced by `fit` a 2-d / 1-d array of the right width has the plan of the DataFrame carrying the
+TRAINING TABLE's labels in table order. -/
+theorem array_read_in_training_table_order {C D U : Type} (items : List (L × C)) (gd : L → D)
+    (fc : C → D → L → U) (m : GModel L)
+    (hfit : m.cols = (Gen.GaussTransform.fitColumns items gd fc).1) :
+    m.cols = items.map (·.1) ∧
+      (Gen.GaussTransform.fitColumns items gd fc).2.length = m.cols.length ∧
+      (∀ rows : List (List α), (∀ r ∈ rows, r.length = items.length) →
+        transformToNormal m (.arr2 rows) = transformToNormal m (.frame (items.map (·.1)) rows)) ∧
+      (∀ row : List α, row.length = items.length →
+        transformToNormal m (.arr1 row) = transformToNormal m (.frame (items.map (·.1)) [row])) := by
+  have hc : m.cols = items.map (·.1) := hfit.trans (fitColumns_fst gd fc items)
+  have hl : m.cols.length = items.length := by rw [hc, List.length_map]
+  refine ⟨hc, by rw [fitColumns_snd_length, hl], ?_, ?_⟩
+  · intro rows h
+    rw [transformToNormal_arr2, if_pos (by simpa [hl] using h), hc]
+  · intro row h
+    rw [transformToNormal_arr1, transformToNormal_arr2, if_pos (by simpa [hl] using h), hc]
+
 /-- **Row independence of the scores**: the plan of a frame is the row-wise map of `rowPlan`, which
 sees one row only; each row evaluated alone gives exactly its row of the batch. -/
 theorem row_independent (m : GModel L) (ls : List L) (rows : List (List α)) (S : Block (Term α))
